@@ -315,6 +315,10 @@ func (b faultBackend) Get(ctx context.Context, path, key string) (io.ReadCloser,
 func newCas() *caching.Cas {
 	backend, err := backends.NewFileSystemCache(logCtx)
 	must(err)
+	if len(readFaults) == 0 {
+		// no wrapper unless a read fault was asked for: a wrapper hides optional interfaces of the real backend
+		return caching.NewCas(backend)
+	}
 	return caching.NewCas(faultBackend{backend})
 }
 
@@ -437,10 +441,34 @@ func doDir(f []string) string {
 	hl := handlers.NewDirectoryOutputHandler(newCas())
 	lcls, ldetail := guarded(func() error { return hl.Load(logCtx, target, out, nil) }, true, hardTimeout)
 	after := "-"
+	reload := ""
 	if lcls == "ok" {
 		after = listing(path)
+		if faults == "-" || faults == "" {
+			// independence of the restored copy (see doFile): append to every regular file in place, remove the tree, restore again
+			edited := 0
+			filepath.Walk(path, func(q string, info os.FileInfo, err error) error {
+				if err == nil && info.Mode().IsRegular() && info.Mode().Perm()&0o200 != 0 {
+					if fh, e2 := os.OpenFile(q, os.O_WRONLY|os.O_APPEND, 0); e2 == nil {
+						fh.WriteString("#edited-in-place")
+						fh.Close()
+						edited++
+					}
+				}
+				return nil
+			})
+			if edited > 0 {
+				os.RemoveAll(path)
+				h2 := handlers.NewDirectoryOutputHandler(newCas())
+				c2, _ := guarded(func() error { return h2.Load(logCtx, target, out, nil) }, true, hardTimeout)
+				reload = ";reload=0"
+				if c2 == "ok" && listing(path) == after {
+					reload = ";reload=1"
+				}
+			}
+		}
 	}
-	return fmt.Sprintf("ok\t%s\t%s\t%s\t%s\t%s", lcls, before, after, casDesc, w.Hex(ldetail))
+	return fmt.Sprintf("ok\t%s\t%s\t%s\t%s\t%s", lcls, before, after, casDesc+reload, w.Hex(ldetail))
 }
 
 func doFile(f []string) string {
@@ -474,10 +502,26 @@ func doFile(f []string) string {
 	hl := handlers.NewFileOutputHandler(newCas())
 	lcls, ldetail := guarded(func() error { return hl.Load(logCtx, target, out, nil) }, false, hardTimeout)
 	after := "-"
+	reload := ""
 	if lcls == "ok" {
 		after = listing(path)
+		// independence of the restored copy: modify it IN PLACE (same inode), remove it, restore again -- the cache must
+		// still serve what was cached (a restore that links the workspace file to the cache entry would now serve the edit)
+		if faults == "-" || faults == "" {
+			if fh, err := os.OpenFile(path, os.O_WRONLY|os.O_APPEND, 0); err == nil {
+				fh.WriteString("#edited-in-place")
+				fh.Close()
+				os.Remove(path)
+				h2 := handlers.NewFileOutputHandler(newCas())
+				c2, _ := guarded(func() error { return h2.Load(logCtx, target, out, nil) }, false, hardTimeout)
+				reload = ";reload=0"
+				if c2 == "ok" && listing(path) == after {
+					reload = ";reload=1"
+				}
+			}
+		}
 	}
-	return fmt.Sprintf("ok\t%s\t%s\t%s\t%s\t%s", lcls, before, after, casDesc+";"+flag, w.Hex(ldetail))
+	return fmt.Sprintf("ok\t%s\t%s\t%s\t%s\t%s", lcls, before, after, casDesc+";"+flag+reload, w.Hex(ldetail))
 }
 
 func main() {
